@@ -320,6 +320,125 @@ def h_eigh(ctx, n, D, P, sigma=1, epsilon=None):
     ctx.eq(plain(A.data), X, 'input unchanged')
 
 
+def h_eigh_repeated(ctx, D, P):
+    """2x2, A0 = lam0 * I (exactly repeated eigenvalue), splitting at order 1:
+    A(t) = lam0 I + t Q1 diag(mu) Q1^T + t^2 A2 + ...   (mu_1 < mu_2)"""
+    algopy = symx.load_algopy()
+    n = 2
+    X = np.empty((D, P, n, n), dtype=object)
+    zero = 0.0 if ctx.mode == 'float' else S.const(0)
+    one = 1.0 if ctx.mode == 'float' else S.const(1)
+    mus = {}
+    for p in range(P):
+        lam0 = ctx.var('lam0_%d' % p)
+        A0 = np.empty((n, n), dtype=object)
+        A0[0, 0], A0[0, 1], A0[1, 0], A0[1, 1] = lam0, zero, zero, lam0
+        I2 = np.empty((n, n), dtype=object)
+        I2[0, 0], I2[0, 1], I2[1, 0], I2[1, 1] = one, zero, zero, one
+        if ctx.mode == 'sym':
+            stubs.register('eigh', A0, (np.array([lam0, lam0], dtype=object), I2))
+        X[0, p] = A0
+        if D > 1:
+            Q1 = rot2(ctx, 'q1_%d' % p)
+            mu = [ctx.var('mu%d_%d' % (p, i)) for i in range(n)]
+            ctx.assume(mu[1] - mu[0] > 1)
+            mus[p] = mu
+            Mm = np.empty((n, n), dtype=object)
+            Mm[0, 0], Mm[0, 1], Mm[1, 0], Mm[1, 1] = mu[0], zero, zero, mu[1]
+            A1 = mat(mat(Q1, Mm), Q1.T)
+            if ctx.mode == 'sym':
+                stubs.register('eigh', A1, (np.array(mu, dtype=object), Q1))
+            X[1, p] = A1
+        for d in range(2, D):
+            for i in range(n):
+                for j in range(n):
+                    X[d, p, i, j] = X[d, p, j, i] if j < i else ctx.var('A%d_%d[%d,%d]' % (d, p, i, j))
+    A = mk_utpm(ctx, algopy, X)
+    l, Q = algopy.eigh(A)
+    ld, Qd = plain(l.data), plain(Q.data)
+    for p in range(P):
+        Qc, Ac = coefs(Qd, p), coefs(X, p)
+        Lc = []
+        for d in range(D):
+            Lm = np.empty((n, n), dtype=object)
+            for i in range(n):
+                for j in range(n):
+                    Lm[i, j] = ld[d, p, i] if i == j else zero
+            Lc.append(Lm)
+        QLQt = ps_matmul(ps_matmul(Qc, Lc, D), tr(Qc), D)
+        QtQ = ps_matmul(tr(Qc), Qc, D)
+        I = eye_series(n, D, ctx)
+        for d in range(D):
+            ctx.eq(QLQt[d], Ac[d], 'Q diag(lam) Qt==A order %d dir %d (repeated lambda_0)' % (d, p))
+            ctx.eq(QtQ[d], I[d], 'QtQ==I order %d dir %d (repeated lambda_0)' % (d, p))
+        ctx.eq(ld[0, p, 0], ld[0, p, 1], 'lambda_0 repeated')
+        if D > 1:
+            ctx.eq(ld[1, p], np.array(mus[p], dtype=object), 'first-order eigenvalues are the eigenvalues of A_1 in ascending order')
+
+
+def h_svd(ctx, D, P):
+    """2x2 SVD through the eigendecomposition of the Jordan-Wielandt matrix
+    B = [[0, A], [A^T, 0]]: A0 = U0 diag(s) V0^T, s1 > s2 > 0"""
+    algopy = symx.load_algopy()
+    n = 2
+    zero = 0.0 if ctx.mode == 'float' else S.const(0)
+    A0s = []
+    for p in range(P):
+        U0 = rot2(ctx, 'U%d' % p)
+        V0 = rot2(ctx, 'V%d' % p)
+        s1, s2 = ctx.var('s%d_1' % p), ctx.var('s%d_2' % p)
+        ctx.assume(s2 > 1)
+        ctx.assume(s1 - s2 > 1)
+        Sm = np.empty((n, n), dtype=object)
+        Sm[0, 0], Sm[0, 1], Sm[1, 0], Sm[1, 1] = s1, zero, zero, s2
+        A0 = mat(mat(U0, Sm), V0.T)
+        A0s.append(A0)
+        if ctx.mode == 'sym':
+            # eigen-decomposition of B0: eigenvalues ascending (-s1, -s2, s2, s1),
+            # eigenvectors (u_i; -+ v_i)/sqrt(2)
+            B0 = np.empty((4, 4), dtype=object)
+            B0[...] = zero
+            B0[:2, 2:] = A0
+            B0[2:, :2] = A0.T
+            h = S.kappa('sqrt2') / 2
+            Qb = np.empty((4, 4), dtype=object)
+            for col, (i, sg) in enumerate([(0, -1), (1, -1), (1, 1), (0, 1)]):
+                for r in range(2):
+                    Qb[r, col] = U0[r, i] * h
+                    Qb[2 + r, col] = V0[r, i] * h * sg
+            stubs.register('eigh', B0, (np.array([-s1, -s2, s2, s1], dtype=object), Qb))
+    X = build_input(ctx, A0s, D, (n, n))
+    A = mk_utpm(ctx, algopy, X)
+    if ctx.mode == 'sym':
+        stubs.ALLOW_ORTHONORMAL_QR[0] = True
+    try:
+        U, s, Vv = algopy.svd(A)
+    finally:
+        stubs.ALLOW_ORTHONORMAL_QR[0] = False
+    Ud, sd, Vd = plain(U.data), plain(s.data), plain(Vv.data)
+    ctx.fact(Ud.shape == (D, P, 2, 2) and sd.shape == (D, P, 2) and Vd.shape == (D, P, 2, 2), 'shapes')
+    for p in range(P):
+        Uc, Vc, Ac = coefs(Ud, p), coefs(Vd, p), coefs(X, p)
+        Sc = []
+        for d in range(D):
+            Sm = np.empty((n, n), dtype=object)
+            Sm[0, 0], Sm[0, 1], Sm[1, 0], Sm[1, 1] = sd[d, p, 0], zero, zero, sd[d, p, 1]
+            Sc.append(Sm)
+        USVt = ps_matmul(ps_matmul(Uc, Sc, D), tr(Vc), D)
+        UtU = ps_matmul(tr(Uc), Uc, D)
+        VtV = ps_matmul(tr(Vc), Vc, D)
+        I = eye_series(n, D, ctx)
+        for d in range(D):
+            ctx.eq(USVt[d], Ac[d], 'U diag(s) Vt == A order %d dir %d' % (d, p))
+            ctx.eq(UtU[d], I[d], 'UtU == I order %d dir %d' % (d, p))
+            ctx.eq(VtV[d], I[d], 'VtV == I order %d dir %d' % (d, p))
+        if ctx.mode == 'sym':
+            ctx.holds(S.lift(sd[0, p, 0]) > S.lift(sd[0, p, 1]), 's_0 descending dir %d' % p)
+            ctx.holds(S.lift(sd[0, p, 1]) > 0, 's_0 positive dir %d' % p)
+        else:
+            ctx.fact(sd[0, p, 0] > sd[0, p, 1] > 0, 's_0 descending positive')
+
+
 def h_eig(ctx, n, D, P):
     """general eigendecomposition, D <= 2, real distinct eigenvalues"""
     algopy = symx.load_algopy()
@@ -394,6 +513,12 @@ def units(tier, seed):
     if tier != 'quick':
         add('eigh/2x2/D5,P1', 'h_eigh', n=2, D=5, P=1)
         add('eigh/3x3/D2,P2', 'h_eigh', n=3, D=2, P=2)
+    add('eigh/2x2 repeated eigenvalue, split at order 1/D3,P1', 'h_eigh_repeated', D=3, P=1)
+    add('eigh/2x2 repeated eigenvalue, split at order 1/D2,P2', 'h_eigh_repeated', D=2, P=2)
+    if tier != 'quick':
+        add('eigh/2x2 repeated eigenvalue, split at order 1/D4,P1', 'h_eigh_repeated', D=4, P=1)
+    if tier != 'quick':
+        add('svd/2x2/D2,P1', 'h_svd', o={'unit_timeout': 1500, 'crosscheck': False}, D=2, P=1)
     add('eig/2x2/D2,P1', 'h_eig', o={'validate_values': False}, n=2, D=2, P=1)
     add('eig/2x2/D2,P2', 'h_eig', o={'validate_values': False}, n=2, D=2, P=2)
     return out
